@@ -527,6 +527,17 @@ acquire_start(struct AcquireRuntime* self_)
             continue;
         }
 
+        // Begin with empty queues and no registered readers. A monitor reader
+        // registered while this stream was not running (acquire_map_read
+        // before start, or on a stream acquire_stop skipped as disabled) is
+        // never released otherwise, and if the client does not poll it
+        // during this acquisition the queue fills up and stalls the source.
+        channel_reset(&video->sink.in);
+        channel_reset(&video->filter.in);
+        video->monitor.reader = (struct channel_reader){ 0 };
+        video->sink.reader = (struct channel_reader){ 0 };
+        video->filter.reader = (struct channel_reader){ 0 };
+
         CHECK(video_sink_start(&video->sink) == Device_Ok);
         CHECK(video_filter_start(&video->filter) == Device_Ok);
         CHECK(video_source_start(&video->source) == Device_Ok);
